@@ -21,7 +21,7 @@ unshare -m bash -c '
     (cd /repo && git checkout -q -- . && git apply "$patch") || { echo "$seed: patch does not apply"; continue; }
     line="$seed:"
     checks="C01 C02 C03 C04 C05 C06 C07 C08 C09 C10 C11 C12 C13 C14 C15 C16 C17 C18 C19 C20"
-    # CHECKS=own: only the check of the change's own property
+    # CHECKS=own: only the check of the property the change was written for
     [ "${CHECKS:-all}" = own ] && checks=$id
     for c in $checks; do
       out=$(./check $c --tier quick 2>&1); rc=$?
